@@ -871,9 +871,19 @@ func (vm *VM) xOpSetupCatch() {
 		}
 	}
 
+	// Either OpSetLocal or OpPop is generated by compiler to handle error.
+	// Catch identifier is a new variable, its local slot may still hold the
+	// pointer of a captured variable of a block which used the same slot, so
+	// the slot is set here instead of OpSetLocal which writes through pointers.
+	if vm.ip+2 < len(vm.curInsts) && vm.curInsts[vm.ip+1] == OpSetLocal {
+		localIndex := int(vm.curInsts[vm.ip+2])
+		vm.stack[vm.curFrame.basePointer+localIndex] = value
+		vm.ip += 2
+		return
+	}
+
 	vm.stack[vm.sp] = value
 	vm.sp++
-	//Either OpSetLocal or OpPop is generated by compiler to handle error
 }
 
 func (vm *VM) xOpSetupFinally() {
